@@ -38,7 +38,7 @@ def run_spec(args: dict, sandbox: str) -> dict:
             seen.add(k)
             violations.append({"kind": v["kind"], "locus": v["locus"], "detail": v["detail"]})
     prefix = "req|" if PROP == "C03" else "resp|"
-    states = [s for s in w["states"] if s.startswith(prefix) or s.startswith("sched|")]
+    states = [s for s in w["states"] if s.startswith(prefix) or s.startswith(("sched|", "tsched|"))]
     return {
         "violations": violations[:6],
         "spec": spec,
@@ -65,7 +65,7 @@ RULE = (
     "call in the other flavour. Every recorded request is parsed the way a server would and compared with the wire reference model. "
     "Non-trivial/distinct = distinct (per-location parameter kinds + body kind, variant, sync/async, fault kind) tuples that were executed."
 )
-STATE_MEASURE = "sched|: distinct interleavings = completion orders of concurrently scheduled asyncio call groups (as permutations of start positions); req|: distinct (operation shape = per-location multiset of parameter kinds + body kind) x variant x sync/async x fault kind"
+STATE_MEASURE = "sched|: distinct interleavings = completion orders of concurrently scheduled asyncio call groups (as permutations of start positions); req|: distinct (operation shape = per-location multiset of parameter kinds + body kind) x variant x sync/async/threads x fault kind; tsched|: distinct caller-thread interleavings (group size, finish order, number of switches capped at 6)"
 ASSUMPTIONS = [
     "values are compared modulo the accepted serialisations of DESIGN A.2: the property fixes WHERE a value goes, not its spelling",
     "path/header/cookie canaries use unreserved characters only; query/body strings include reserved and non-ASCII characters",
